@@ -14,7 +14,8 @@
 (*   alias   local L = X                                                   *)
 (*   mdef    function X.m(p) end | function X:m(p) end | X.m = function(p) *)
 (*           end | X.m = 1                                                 *)
-(*   muse    print(X.m) | X.m(1) | X:m(1)                                  *)
+(*   muse    print(X.m) | X.m(1) | X:m(1) | function X:zz(p) return self.m *)
+(*           end | function X:zz(p) return function() return self.m end end *)
 (*   ret     return X                  (last statement of its file)        *)
 (* where X is a table variable visible at that point (a local of the file  *)
 (* declared earlier, or the global G).                                     *)
@@ -109,7 +110,9 @@ Alias(x) ==
     /\ UNCHANGED <<cur, ret, ntab, gdef>>
 
 MStyles == {"dot", "colon", "assignfn", "field"}
-UStyles == {"read", "call", "mcall"}
+\* "self" / "selfnest": the member is read through the implicit self of a colon method of X (directly, or from a
+\* function literal nested in the method):  function X:zz(p) return self.m end
+UStyles == {"read", "call", "mcall", "self", "selfnest"}
 
 \* a member definition on the table held by x
 MDef(x, st, m) ==
